@@ -250,6 +250,17 @@ func zzInnerKinds(s string) string {
 	return out
 }
 
+// zzPlaceholders counts the '?' bytes of a clause wherever they stand.
+func zzPlaceholders(s string) int {
+	n := 0
+	for i := 0; i < len(s); i++ {
+		if zzCls(s[i]) == zzPH {
+			n++
+		}
+	}
+	return n
+}
+
 // zzBenign replaces every byte that is not ':' by 'a' (same segment shape).
 func zzBenign(s string) string {
 	b := make([]byte, len(s))
@@ -283,5 +294,7 @@ func ZZ_C20(shape int) {
 		return
 	}
 	verifhook.Assert(zzSQLKinds(clause) == zzSQLKinds(ref), "C20 client text changes the structure of the SQL clause")
+	// bun substitutes a bound argument for every '?' of the clause text, quoted or not
+	verifhook.Assert(zzPlaceholders(clause) == zzPlaceholders(ref), "C20 client text adds a placeholder that bun substitutes with another clause's argument")
 	verifhook.Canary()
 }
